@@ -727,7 +727,8 @@ class Algebra(Task):
             if name == "pow":
                 # keep powers tame
                 if "v" in r and "v" in l:
-                    name = "mul"
+                    if rng.random() < 0.6:
+                        name = "mul"
                 elif "s" in r:
                     r = {"s": float(rng.choice((2, 3, 0.5, -1)))}
                 elif "s" in l:
